@@ -1,6 +1,6 @@
 (* C04 - grouping keys are released only above the tau threshold; pinned statements *)
 From Coq Require Import QArith Reals.
-From QV Require Import DP.Tau DP.TauProofs.
+From QV Require Import DP.Tau DP.TauProofs DP.TauSens.
 
 (* a released key is a key of the data whose count of distinct units, taken after the cap that
    leaves every unit in at most cu groups, plus the noise, exceeds tau *)
@@ -37,3 +37,18 @@ Print Assumptions C04_tau_ge_one.
 Theorem C04_tau_unclamped_refuted : exists scale quantile : R, (0 <= scale)%R /\ (1 + scale * quantile < 1)%R.
 Proof. exact tau_unclamped_refuted. Qed.
 Print Assumptions C04_tau_unclamped_refuted.
+
+(* the count the noise is added to has L2 sensitivity sqrt(cu): the rows of a new unit move every
+   per-key count by 0 or 1, and only for keys among the at most cu rows the cap leaves to that unit *)
+Theorem C04_count_sensitivity : forall cu rank l new u k,
+  fresh u l -> of_unit u new ->
+  let before := count k (cap cu rank l) in
+  let after := count k (cap cu rank (l ++ new)) in
+  (0 <= after - before <= 1)%Z /\
+  ((after - before = 1)%Z -> In k (map snd (cap cu rank new))).
+Proof. exact count_sensitivity. Qed.
+Print Assumptions C04_count_sensitivity.
+
+Theorem C04_moved_keys_bound : forall cu rank new u, of_unit u new -> (length (cap cu rank new) <= cu)%nat.
+Proof. exact moved_keys_bound. Qed.
+Print Assumptions C04_moved_keys_bound.
